@@ -39,13 +39,15 @@ Definition res_code (r : bytes + werr) : bytes + N :=
   match r with inl x => inl x | inr e => inr (err_code e) end.
 
 (** One case: the verifier's configuration, the origin as the harness saw it through [url] (or the
-    Android host), the RP ID, the verdict of [idna::domain_to_unicode] on the effective RP ID, and
-    what the real code answered:
+    Android host), the RP ID, the answers of the [idna] crate on the effective RP ID
+    ([puny]: verdict of [domain_to_unicode]; [ascii]: [domain_to_ascii(..).ok()]), the canonical ASCII
+    form [canon] of the effective RP ID computed independently by the driver (Python's IDNA codec,
+    lower-casing) for the oracle, and what the real code answered:
     [impl]: [assert_domain] ([None]: it panicked); [impl_valid]: [is_valid_rp_id] on the effective RP ID;
     [e2e]: [Client::register] was run on the pair: did it succeed, and the RP IDs of the passkeys in the
     store afterwards. *)
 Inductive rcase :=
-  CRp (allow : bool) (pk : pkind) (o : origin) (rp : option bytes) (puny : bool)
+  CRp (allow : bool) (pk : pkind) (o : origin) (rp : option bytes) (puny : bool) (ascii : option bytes) (canon : bytes)
       (impl : option (bytes + N)) (impl_valid : option bool) (e2e : option (bool * list bytes)).
 
 Definition sum_eqb (a b : bytes + N) : bool :=
@@ -58,11 +60,11 @@ Definition sum_eqb (a b : bytes + N) : bool :=
 (** model = implementation *)
 Definition agree (c : rcase) : bool :=
   match c with
-  | CRp allow pk o rp puny impl impl_valid _ =>
-      opt_eqb sum_eqb (Some (res_code (assert_domain allow (provider_of pk) (fun _ => puny) o rp))) impl
+  | CRp allow pk o rp puny ascii _ impl impl_valid _ =>
+      opt_eqb sum_eqb (Some (res_code (assert_domain allow (provider_of pk) (fun _ => puny) (fun _ => ascii) o rp))) impl
       && opt_eqb Bool.eqb
            (match effective o rp with
-            | Some x => Some (is_valid_rp_id allow (provider_of pk) (fun _ => puny) x)
+            | Some x => Some (is_valid_rp_id allow (provider_of pk) (fun _ => puny) (fun _ => ascii) x)
             | None => None
             end) impl_valid
   end.
@@ -90,7 +92,9 @@ Definition boundary_b (pk : pkind) (h r : bytes) : bool :=
   prefix beq (dom_labels r) (dom_labels h)
   || match pk with POk => starts_with_dot r && str_suffix r h | _ => false end.
 
-Definition c01_ok (allow : bool) (pk : pkind) (o : origin) (rp : option bytes) (res : bytes + N) : bool :=
+(** [canon]: the canonical ASCII form of the effective RP ID; "registrable" is decided on it, so that an
+    upper-case or Unicode spelling of a public suffix is a public suffix *)
+Definition c01_ok (allow : bool) (pk : pkind) (o : origin) (rp : option bytes) (canon : bytes) (res : bytes + N) : bool :=
   match res with
   | inr _ => true                                   (* the property is an "only if": refusing is allowed *)
   | inl r =>
@@ -100,9 +104,13 @@ Definition c01_ok (allow : bool) (pk : pkind) (o : origin) (rp : option bytes) (
           opt_eqb beq (effective o rp) (Some r)     (* exactly the effective RP ID *)
           && boundary_b pk h r
           && ((allow && is_web o && beq r LOCALHOST && beq h LOCALHOST)
-              || ((negb (is_web o) || eq_ignore_ascii_case (scheme_of o) HTTPS) && registrable pk r))
+              || ((negb (is_web o) || eq_ignore_ascii_case (scheme_of o) HTTPS) && registrable pk canon))
       end
   end.
+
+(** [is_valid_rp_id(x) = true] only for the enabled literal "localhost" or a registrable name *)
+Definition valid_ok (allow : bool) (pk : pkind) (x canon : bytes) (v : bool) : bool :=
+  negb v || (allow && beq x LOCALHOST) || registrable pk canon.
 
 Fixpoint bytes_list_eqb (a b : list bytes) : bool :=
   match a, b with
@@ -113,11 +121,16 @@ Fixpoint bytes_list_eqb (a b : list bytes) : bool :=
 
 Definition oracle (c : rcase) : bool :=
   match c with
-  | CRp allow pk o rp puny impl impl_valid e2e =>
+  | CRp allow pk o rp puny ascii canon impl impl_valid e2e =>
       match impl with
       | None => false                               (* a panic *)
       | Some res =>
-          c01_ok allow pk o rp res
+          c01_ok allow pk o rp canon res
+          && match effective o rp, impl_valid with
+             | Some x, Some v => valid_ok allow pk x canon v
+             | None, None => true
+             | _, _ => false                        (* is_valid_rp_id panicked *)
+             end
           && match e2e with
              | None => true
              | Some (ok, stored) =>
